@@ -4,6 +4,9 @@ From LH Require Import Base.Bytes Base.Res Model.Config Spec.ConfigSpec.
 Import ListNotations.
 Local Open Scope N_scope.
 
+Lemma Ok_inj {A} (a b : A) : Ok a = Ok b -> a = b.
+Proof. intros H. injection H as H. exact H. Qed.
+
 (* ---------- small facts about lists of types ---------- *)
 
 Lemma mem_in t l : mem t l = true <-> In t l.
@@ -143,7 +146,7 @@ Section Law.
     exists m, fl. split; [exact Hf|].
     unfold handle_flags in H. destruct (compile_all fixed re_ok (c_ignore_err c)); [|discriminate].
     rewrite Hf in H.
-    destruct m; injection H as <-; unfold hf_fields;
+    destruct m; apply Ok_inj in H; subst g; unfold hf_fields;
       cbn [g_json g_show g_ignore_types g_open_types g_handle_folder g_handle_file g_err_folder g_err_file
            g_file_types g_has_entry]; rewrite ?Hf; repeat split.
   Qed.
@@ -167,7 +170,7 @@ Section Law.
     rewrite Hs, Hi, Hef, Hel, Hft, Hft0, Hf. cbn [hd existsb].
     rewrite !existsb_app. rewrite (existsb_filter_split (pm f) has_lua_suffix (c_ignore_err c)).
     destruct m.
-    - rewrite mem_filter, mem_types_all, Hr, Hf.
+    - rewrite mem_filter, mem_types_all, Hr.
       generalize (client_off (true :: fl) t). intros a.
       generalize (existsb (pm f) (filter has_lua_suffix (c_ignore_err c))). intros b.
       generalize (existsb (pm f) (filter (fun x => negb (has_lua_suffix x)) (c_ignore_err c))). intros b'.
@@ -219,7 +222,7 @@ Section Law.
            g_file_types := ft_of_list (j_file_types j);
            g_has_entry := j_has_entry j |}.
   Proof.
-    unfold read_json. destruct (_ && _); [|discriminate]. intros H. injection H as <-. reflexivity.
+    unfold read_json. destruct (_ && _); [|discriminate]. intros H. apply Ok_inj in H. subst g. reflexivity.
   Qed.
 
   Lemma realises_json g0 j g :
@@ -246,3 +249,332 @@ Section Law.
     - intros rel. reflexivity.
   Qed.
 End Law.
+
+(* ---------- whole sessions: init, then any number of settings changes ---------- *)
+
+Lemma last_indep {A} (l : list A) d d' : l <> [] -> last l d = last l d'.
+Proof.
+  induction l as [|a l IH]; intros Hne; [congruence|].
+  destruct l as [|b l]; [reflexivity|].
+  change (last (b :: l) d = last (b :: l) d'). apply IH. discriminate.
+Qed.
+
+Lemma last_cons_default {A} (a : A) l d : last (a :: l) d = last l a.
+Proof.
+  destruct l as [|b l]; [reflexivity|].
+  change (last (b :: l) d = last (b :: l) a). apply last_indep. discriminate.
+Qed.
+
+Section Sessions.
+  Variable fixed : bool.
+  Variable re_ok : path -> bool.
+  Variable re_match : path -> path -> bool.
+
+  Lemma changes_json : forall cs s s',
+    g_json (s_g s) = true -> changes fixed re_ok s cs = Ok s' -> s_g s' = s_g s.
+  Proof.
+    induction cs as [|c cs IH]; intros s s' Hj H; cbn [changes] in H.
+    - apply Ok_inj in H. subst. reflexivity.
+    - unfold change in H. destruct (negb (s_changed s)).
+      + cbn [rbind] in H. apply IH in H; [exact H|exact Hj].
+      + rewrite Hj in H. cbn [rbind] in H. apply IH in H; [exact H|exact Hj].
+  Qed.
+
+  Lemma session_json jc c cs s :
+    session fixed re_ok (Some jc) c cs = Ok s -> read_json fixed re_ok g_default jc = Ok (s_g s).
+  Proof.
+    unfold session, init. destruct (read_json fixed re_ok g_default jc) as [g| |] eqn:Hr; cbn [rbind]; try discriminate.
+    intros H. apply changes_json in H.
+    - cbn [s_g] in H. rewrite H. reflexivity.
+    - cbn [s_g]. apply read_json_inv in Hr. subst g. reflexivity.
+  Qed.
+
+  Definition from_client (g : gconf) (c : client_cfg) : Prop :=
+    exists g0, cinv g0 /\ handle_flags fixed re_ok g0 c = Ok g.
+
+  Lemma from_client_cinv g c : client_wf c = true -> from_client g c -> cinv g.
+  Proof. intros Hwf (g0 & Hc & H). exact (handle_flags_cinv fixed re_ok g0 c g Hwf Hc H). Qed.
+
+  Lemma changes_client : forall cs s c s',
+    s_changed s = true -> client_wf c = true -> forallb client_wf cs = true ->
+    from_client (s_g s) c -> changes fixed re_ok s cs = Ok s' ->
+    from_client (s_g s') (last cs c) /\ client_wf (last cs c) = true.
+  Proof.
+    induction cs as [|c2 cs IH]; intros s c s' Hch Hwf Hwfs Hfc H; cbn [changes] in H.
+    - apply Ok_inj in H. subst. cbn [last]. auto.
+    - cbn [forallb] in Hwfs. apply andb_true_iff in Hwfs as [Hwf2 Hwfs].
+      unfold change in H. rewrite Hch in H. cbn [negb] in H.
+      destruct (from_client_cinv _ _ Hwf Hfc) as (Hj & _). pose proof (from_client_cinv _ _ Hwf Hfc) as Hci.
+      rewrite Hj in H.
+      destruct (handle_flags fixed re_ok (s_g s) c2) as [g'| |] eqn:Hh; cbn [rbind] in H; try discriminate.
+      rewrite last_cons_default.
+      apply (IH _ c2 s') in H; [exact H|reflexivity|exact Hwf2|exact Hwfs|].
+      cbn [s_g]. exists (s_g s). auto.
+  Qed.
+
+  Lemma session_client c cs s :
+    client_wf c = true -> forallb client_wf cs = true ->
+    session fixed re_ok None c cs = Ok s ->
+    from_client (s_g s) (effective_client c cs) /\ client_wf (effective_client c cs) = true.
+  Proof.
+    intros Hwf Hwfs. unfold session, init.
+    destruct (handle_flags fixed re_ok g_default c) as [g1| |] eqn:H0; cbn [rbind]; try discriminate.
+    assert (Hfc : from_client g1 c) by (exists g_default; split; [apply cinv_default|exact H0]).
+    destruct cs as [|c1 cs]; cbn [changes effective_client].
+    - intros H. apply Ok_inj in H. subst. cbn [s_g]. auto.
+    - unfold change at 1. cbn [s_changed negb rbind s_g].
+      cbn [forallb] in Hwfs. apply andb_true_iff in Hwfs as [_ Hwfs].
+      intros H. apply (changes_client cs _ c s) in H; auto.
+  Qed.
+
+  Theorem session_realises j c cs s :
+    json_wf j = true -> client_wf c = true -> forallb client_wf cs = true ->
+    session fixed re_ok j c cs = Ok s ->
+    realises re_ok re_match (s_g s) (session_intent j c cs).
+  Proof.
+    intros Hj Hwf Hwfs H. destruct j as [jc|]; unfold session_intent, intent_of.
+    - apply session_json in H. exact (realises_json fixed re_ok re_match g_default jc (s_g s) Hj H).
+    - destruct (session_client c cs s Hwf Hwfs H) as ((g0 & Hc & Hh) & Hwfe).
+      exact (realises_client fixed re_ok re_match g0 _ (s_g s) Hwfe Hc Hh).
+  Qed.
+
+  (* pointwise law under the guard *)
+  Lemma guarded_visible g i root d :
+    realises re_ok re_match g i -> diag_guard re_ok re_match g i root d = true ->
+    visible re_ok re_match g root d = negb (spec_excluded re_ok re_match i root d).
+  Proof.
+    intros (Hv & _) Hg. unfold diag_guard in Hg. apply andb_true_iff in Hg as [Hty Hg].
+    rewrite (Hv root d Hty).
+    destruct (spec_excluded re_ok re_match i root d); cbn [negb andb orb] in *; [reflexivity|].
+    rewrite Hg. reflexivity.
+  Qed.
+
+  Variable raw : list path -> list diag.
+
+  Theorem filter_law root files j c cs s :
+    json_wf j = true -> client_wf c = true -> forallb client_wf cs = true ->
+    session fixed re_ok j c cs = Ok s ->
+    forallb (diag_guard re_ok re_match (s_g s) (session_intent j c cs) root)
+            (raw (filter (is_handled re_ok re_match (s_g s)) files)) = true ->
+    shown re_ok re_match raw (s_g s) root files
+      = spec_shown re_ok re_match raw (session_intent j c cs) root files.
+  Proof.
+    intros Hj Hwf Hwfs H Hg.
+    pose proof (session_realises j c cs s Hj Hwf Hwfs H) as Hr.
+    unfold shown, spec_shown.
+    assert (Hf : filter (is_handled re_ok re_match (s_g s)) files
+                 = filter (spec_handled re_ok re_match (session_intent j c cs)) files).
+    { apply filter_ext. intros rel. apply (proj2 Hr). }
+    rewrite <- Hf. apply filter_ext_in. intros d Hin.
+    rewrite forallb_forall in Hg. apply guarded_visible; [exact Hr|apply Hg; exact Hin].
+  Qed.
+
+  (* and whatever the guard says: what is shown is always a subset of what the intent allows, except for the
+     replaced duplicate rule (json_wf) - the code never shows a diagnostic the configuration excludes *)
+  Theorem never_shows_excluded root j c cs s d :
+    json_wf j = true -> client_wf c = true -> forallb client_wf cs = true ->
+    session fixed re_ok j c cs = Ok s -> type_ok d = true ->
+    visible re_ok re_match (s_g s) root d = true ->
+    spec_excluded re_ok re_match (session_intent j c cs) root d = false.
+  Proof.
+    intros Hj Hwf Hwfs H Hty Hv.
+    destruct (session_realises j c cs s Hj Hwf Hwfs H) as (Hr & _).
+    rewrite (Hr root d Hty) in Hv.
+    destruct (spec_excluded re_ok re_match (session_intent j c cs) root d); [discriminate|reflexivity].
+  Qed.
+End Sessions.
+
+(* ---------- the three delivery routes ---------- *)
+
+Section Routes.
+  Variable fixed : bool.
+  Variable re_ok : path -> bool.
+  Variable re_match : path -> path -> bool.
+
+  Definition obs_eq (g1 g2 : gconf) : Prop :=
+    (forall root d, visible re_ok re_match g1 root d = visible re_ok re_match g2 root d)
+    /\ (forall rel, is_handled re_ok re_match g1 rel = is_handled re_ok re_match g2 rel).
+
+  Lemma visible_hidden g root d : g_show g = false -> visible re_ok re_match g root d = false.
+  Proof. intros H. unfold visible, is_ignore_error_file. rewrite H. reflexivity. Qed.
+
+  Lemma visible_fields g1 g2 root d :
+    g_show g1 = g_show g2 -> g_ignore_types g1 = g_ignore_types g2 -> g_open_types g1 = g_open_types g2 ->
+    g_err_folder g1 = g_err_folder g2 -> g_err_file g1 = g_err_file g2 -> g_file_types g1 = g_file_types g2 ->
+    g_has_entry g1 = g_has_entry g2 ->
+    visible re_ok re_match g1 root d = visible re_ok re_match g2 root d.
+  Proof.
+    intros H1 H2 H3 H4 H5 H6 H7.
+    unfold visible, is_ignore_error_file, pass_runs, cross_runs, special_check.
+    rewrite H1, H2, H3, H4, H5, H6, H7. reflexivity.
+  Qed.
+
+  Lemma is_handled_fields g1 g2 rel :
+    g_handle_folder g1 = g_handle_folder g2 -> g_handle_file g1 = g_handle_file g2 ->
+    is_handled re_ok re_match g1 rel = is_handled re_ok re_match g2 rel.
+  Proof.
+    intros H1 H2. unfold is_handled, ignore_folder, ignore_file. rewrite H1, H2. reflexivity.
+  Qed.
+
+  Lemma from_client_obs g1 g2 c :
+    client_wf c = true -> from_client fixed re_ok g1 c -> from_client fixed re_ok g2 c -> obs_eq g1 g2.
+  Proof.
+    intros Hwf (a & (_ & Hfta & Hoa & Hea) & Ha) (b & (_ & Hftb & Hob & Heb) & Hb).
+    destruct (handle_flags_inv fixed re_ok a c g1 Hwf Ha) as (m & fl & Hf & _ & Hs1 & Hi1 & Ho1 & Hhf1 & Hhl1 & Hef1 & Hel1 & Hft1 & He1).
+    destruct (handle_flags_inv fixed re_ok b c g2 Hwf Hb) as (m' & fl' & Hf' & _ & Hs2 & Hi2 & Ho2 & Hhf2 & Hhl2 & Hef2 & Hel2 & Hft2 & He2).
+    rewrite Hf in Hf'. injection Hf' as <- <-.
+    split.
+    - intros root d. destruct m.
+      + apply visible_fields; congruence.
+      + rewrite !visible_hidden by assumption. reflexivity.
+    - intros rel. apply is_handled_fields; congruence.
+  Qed.
+
+  Lemma from_client_json_obs g1 g3 c :
+    client_wf c = true -> from_client fixed re_ok g1 c ->
+    read_json fixed re_ok g_default (to_json c) = Ok g3 -> obs_eq g1 g3.
+  Proof.
+    intros Hwf (a & (_ & Hfta & Hoa & Hea) & Ha) H3.
+    destruct (handle_flags_inv fixed re_ok a c g1 Hwf Ha) as (m & fl & Hf & _ & Hs1 & Hi1 & Ho1 & Hhf1 & Hhl1 & Hef1 & Hel1 & Hft1 & He1).
+    apply read_json_inv in H3. subst g3. unfold to_json. rewrite Hf.
+    split.
+    - intros root d. destruct m.
+      + apply visible_fields;
+          cbn [g_show g_ignore_types g_open_types g_err_folder g_err_file g_file_types g_has_entry
+               j_show j_ignore_types j_open_types j_ignore_err j_file_types j_has_entry].
+        * rewrite Hs1. reflexivity.
+        * rewrite Hi1, Hf. reflexivity.
+        * congruence.
+        * exact Hef1.
+        * exact Hel1.
+        * rewrite Hft1, Hfta. reflexivity.
+        * congruence.
+      + rewrite !visible_hidden; [reflexivity| |assumption].
+        cbn [g_show j_show]. reflexivity.
+    - intros rel. apply is_handled_fields;
+        cbn [g_handle_folder g_handle_file j_ignore_handle]; congruence.
+  Qed.
+
+  (* the same client configuration c delivered (1) as initializationOptions, (2) by a later settings change after an
+     arbitrary earlier history, (3) as the equivalent luahelper.json (whatever the client then sends) *)
+  Theorem same_by_all_routes c c0 csync cmid cany cs_any s1 s2 s3 :
+    client_wf c = true -> client_wf c0 = true -> client_wf csync = true -> forallb client_wf cmid = true ->
+    session fixed re_ok None c [] = Ok s1 ->
+    session fixed re_ok None c0 (csync :: cmid ++ [c]) = Ok s2 ->
+    session fixed re_ok (Some (to_json c)) cany cs_any = Ok s3 ->
+    obs_eq (s_g s1) (s_g s2) /\ obs_eq (s_g s1) (s_g s3).
+  Proof.
+    intros Hwf Hwf0 Hwfs Hwfm H1 H2 H3.
+    destruct (session_client fixed re_ok c [] s1 Hwf eq_refl H1) as (F1 & _). cbn [effective_client] in F1.
+    assert (Hall : forallb client_wf (csync :: cmid ++ [c]) = true).
+    { cbn [forallb]. rewrite Hwfs. rewrite forallb_app. rewrite Hwfm. cbn [forallb]. rewrite Hwf. reflexivity. }
+    destruct (session_client fixed re_ok c0 _ s2 Hwf0 Hall H2) as (F2 & _).
+    cbn [effective_client] in F2. rewrite last_last in F2.
+    split.
+    - exact (from_client_obs (s_g s1) (s_g s2) c Hwf F1 F2).
+    - apply session_json in H3. exact (from_client_json_obs (s_g s1) (s_g s3) c Hwf F1 H3).
+  Qed.
+
+  (* observationally equal states show the same diagnostics, whatever the analysis produces *)
+  Lemma obs_eq_shown raw g1 g2 root files :
+    obs_eq g1 g2 -> shown re_ok re_match raw g1 root files = shown re_ok re_match raw g2 root files.
+  Proof.
+    intros (Hv & Hh). unfold shown.
+    rewrite (filter_ext _ _ Hh). apply filter_ext. intros d. apply Hv.
+  Qed.
+
+  (* luahelper.json present: nothing the client sends changes the outcome *)
+  Theorem json_ignores_client jc c c' cs cs' s s' :
+    session fixed re_ok (Some jc) c cs = Ok s -> session fixed re_ok (Some jc) c' cs' = Ok s' -> s_g s = s_g s'.
+  Proof.
+    intros H H'. apply session_json in H. apply session_json in H'. rewrite H in H'. apply Ok_inj in H'. exact H'.
+  Qed.
+End Routes.
+
+(* ---------- malformed patterns ---------- *)
+
+Section Faults.
+  Variable re_ok : path -> bool.
+
+  Lemma handle_flags_ok_ex fixed g c :
+    compile_all fixed re_ok (c_ignore_err c) = true -> exists g', handle_flags fixed re_ok g c = Ok g'.
+  Proof.
+    intros H. unfold handle_flags. rewrite H.
+    destruct (c_flags c) as [|m fl]; [eexists; reflexivity|]. destruct m; eexists; reflexivity.
+  Qed.
+
+  Lemma changes_ok_ex fixed : forall cs s,
+    forallb (fun c => compile_all fixed re_ok (c_ignore_err c)) cs = true ->
+    exists s', changes fixed re_ok s cs = Ok s'.
+  Proof.
+    induction cs as [|c cs IH]; intros s H; cbn [changes].
+    - eexists; reflexivity.
+    - cbn [forallb] in H. apply andb_true_iff in H as [Hc H].
+      unfold change. destruct (negb (s_changed s)); cbn [rbind]; [apply IH; exact H|].
+      destruct (g_json (s_g s)); cbn [rbind]; [apply IH; exact H|].
+      destruct (handle_flags_ok_ex fixed (s_g s) c Hc) as (g' & Hg). rewrite Hg. cbn [rbind]. apply IH; exact H.
+  Qed.
+
+  Definition session_patterns_ok (fixed : bool) (j : option json_cfg) (c : client_cfg) (cs : list client_cfg) : bool :=
+    match j with
+    | Some jc => compile_all fixed re_ok (map fst (j_file_types jc)) && compile_all fixed re_ok (j_ignore_err jc)
+    | None => compile_all fixed re_ok (c_ignore_err c)
+    end && forallb (fun c => compile_all fixed re_ok (c_ignore_err c)) cs.
+
+  Theorem session_no_fault fixed j c cs :
+    session_patterns_ok fixed j c cs = true -> exists s, session fixed re_ok j c cs = Ok s.
+  Proof.
+    unfold session_patterns_ok. intros H. apply andb_true_iff in H as [H0 Hcs].
+    unfold session, init. destruct j as [jc|].
+    - unfold read_json. rewrite H0. cbn [rbind]. apply changes_ok_ex. exact Hcs.
+    - destruct (handle_flags_ok_ex fixed g_default c H0) as (g' & Hg). rewrite Hg. cbn [rbind].
+      apply changes_ok_ex. exact Hcs.
+  Qed.
+
+  (* the repaired variant never faults *)
+  Theorem fixed_never_faults j c cs : exists s, session true re_ok j c cs = Ok s.
+  Proof.
+    apply session_no_fault. unfold session_patterns_ok, compile_all. cbn [orb].
+    destruct j; cbn [andb]; induction cs; cbn [forallb andb]; auto.
+  Qed.
+
+  (* the code as it is: a pattern that does not compile in IgnoreFileOrDirError kills initialize *)
+  Theorem init_faults_iff c :
+    init false re_ok None c = Fault Regexp <-> forallb re_ok (c_ignore_err c) = false.
+  Proof.
+    unfold init, handle_flags, compile_all. cbn [orb].
+    destruct (forallb re_ok (c_ignore_err c)); cbn [rbind].
+    - split; [|discriminate]. destruct (c_flags c) as [|m fl]; [discriminate|]. destruct m; discriminate.
+    - split; reflexivity.
+  Qed.
+
+  (* where no pattern is malformed the repair changes nothing *)
+  Lemma handle_flags_fixed_same g c :
+    forallb re_ok (c_ignore_err c) = true -> handle_flags false re_ok g c = handle_flags true re_ok g c.
+  Proof. intros H. unfold handle_flags, compile_all. rewrite H. reflexivity. Qed.
+End Faults.
+
+(* ---------- configuration-level sufficient conditions for the guard ---------- *)
+
+Section Simple.
+  Variable re_ok : path -> bool.
+  Variable re_match : path -> path -> bool.
+
+  (* a diagnostic that is neither behind another type's switch nor behind the white list *)
+  Definition plain_diag (d : diag) : bool :=
+    type_ok d && negb (mem (d_type d) [17; 24]) && negb (open_required (d_type d))
+    && match d_ref d with None => true | Some _ => false end.
+
+  Lemma plain_guard g i root d :
+    special_gate_ok g = true -> plain_diag d = true -> diag_guard re_ok re_match g i root d = true.
+  Proof.
+    unfold special_gate_ok, plain_diag, diag_guard, gate_ok, prereq_ok, open_ok, pass_runs.
+    intros Hg H. apply andb_true_iff in H as [H Hr]. apply andb_true_iff in H as [H Ho].
+    apply andb_true_iff in H as [Hty Hp]. rewrite Hty, Ho. cbn [andb orb].
+    assert (Hpre : global_prereq (d_type d) = []).
+    { unfold global_prereq. unfold mem in Hp. cbn [existsb] in Hp.
+      destruct (d_type d =? 17); [discriminate|]. destruct (d_type d =? 24); [discriminate|]. reflexivity. }
+    rewrite Hpre. cbn [forallb]. destruct (d_ref d); [discriminate|].
+    rewrite Hg. destruct (produced_in (d_type d)); rewrite orb_true_r; reflexivity.
+  Qed.
+End Simple.
